@@ -65,7 +65,7 @@ CHECKS = {
   note="Only interleavings the scheduler produced; the detector sees races between accesses that executed. porcupine was not used: the specification is stateless (DESIGN.md section 5).",
   technique="Go race detector (log parsed per process) + recorded concurrent history checked against stand-alone baselines"),
  "C16": dict(category="exploration",
-  text="History monitor with invariant hooks: all sequences up to length 3 (quick) / 4 (thorough) over 16 concrete operations (String on pages reading struct/map/lower-case-map data, failing pages, missing and layout names, array built-ins; Response ok/failing/missing; EvaluateString; EvaluateFile) on a fixed tree under 12 configurations (3 directory/extension settings x debug x custom error page), random histories of length 30. Each step's observation must equal the same operation issued first on a fresh load; after every step the verif hooks VerifFingerprint (structural hash of all loaded ASTs) and VerifState (configuration) must be unchanged.",
+  text="History monitor with invariant hooks: all sequences up to length 2 (quick) / 3 (thorough), sampled ones one step longer and random histories of length 30, over 23 concrete operations (String on pages reading struct/map/lower-case-map data, failing pages, loops failing in a later pass, data-less renders that assign at top level and renders that read those names, missing and layout names, array built-ins; Response ok/failing/missing; EvaluateString; EvaluateFile) on a fixed tree under 18 configurations (3 directory/extension settings x debug x custom error page none/valid/failing). Each step's observation must equal the same operation issued first on a fresh load; after every step the verif hooks VerifFingerprint (structural hash of all loaded ASTs) and VerifState (configuration) must be unchanged.",
   note="Baseline = result as first call after VerifResetConfig + NewTemplate in the same process. Trusts the reflective fingerprint walker.",
   technique="exhaustive operation histories vs fresh-state baselines + AST fingerprint / configuration invariant hooks"),
  "C17": dict(category="exploration",
